@@ -122,7 +122,8 @@ def run (s : State) (sched : List Nat) : State := sched.foldl exec s
 /-- all of the first `n` threads have run their scripts to completion -/
 def Finished (n : Nat) (s : State) : Prop := ∀ t, t < n → (s.thr t).prog = []
 
-instance (n : Nat) (s : State) : Decidable (Finished n s) := by unfold Finished; exact Nat.decidableBallLT _ _
+instance (n : Nat) (s : State) : Decidable (Finished n s) :=
+  inferInstanceAs (Decidable (∀ t, t < n → (s.thr t).prog = []))
 
 /-- thread `t` is inside a call of a closure on lock `l` (about to read, or between read and write) -/
 def inCall (s : State) (t l : Nat) : Bool :=
